@@ -238,6 +238,8 @@ class Norm:
         def f(x):
             k = x[0]
             if k == 'local':
+                if len(x) < 3:
+                    return x
                 a = self._alias(x[2])
                 if a is not None:
                     return a
